@@ -274,6 +274,7 @@ impl BDF {
             }
         }
 
+        let mut last_h_tried = Float::INFINITY;
         'main_loop: loop {
             #[cfg(feature = "verif")]
             crate::verif::tick(crate::verif::BDF_MAIN);
@@ -297,6 +298,11 @@ impl BDF {
                 lu_is_current = false;  // Step size changed
             }
             if h_try < hmin && hmin > 0.0 {
+                // the rejected attempt was already made with the minimum step
+                if last_h_tried <= hmin {
+                    status = Status::StepSizeTooSmall;
+                    break;
+                }
                 let factor = (hmin / h_try).max(1.0);
                 change_d(&mut d, order, factor, &mut scratch_change);
                 h_try = hmin;
@@ -305,6 +311,7 @@ impl BDF {
                 lu_is_current = false;  // Step size changed
             }
 
+            last_h_tried = h_try;
             let mut h_signed = direction * h_try;
             let mut last_step = false;
             let x_start = x;
